@@ -11,7 +11,8 @@ import math, os, sys, json, tempfile, shutil
 from common import *
 
 COQ_PROPS = 'props/C19.v'
-PARTIAL = ('proved over the reals for the regenerated function bodies: range errors; k_factor asks the t/normal quantile '
+PARTIAL = ('proved over the reals for the regenerated function bodies: range errors (all four functions, as iff; over binary64 also '
+           'NaN arguments); k_factor asks the t/normal quantile '
            'oracle for the two-sided question (abstract symmetric cdf); k2_factor_sq = df((1-p)^(-2/(df-1))-1) = 2df/(df-1) x '
            'p-quantile of F(2,df-1) with F2 cdf 1-(1+2x/nu)^(-nu/2) as definition, increasing in p, decreasing in df, limit '
            '-2ln(1-p) with an explicit gap bound at the 1e5 switch; _df_k2/k2_to_dof: sign of fn, RuntimeError iff k2^2 > '
@@ -335,8 +336,7 @@ def check_point(func, a, b, mp=None):
     """independent restatement of C19 at one point; None or a dict describing the failure.
     Conservative: only well-conditioned points, loose tolerances."""
     from GTC import reporting
-    if a != a or b != b:
-        return None      # NaN arguments are outside the property's quantifier (see known finding C19-3)
+    # NaN arguments must be rejected like any other out-of-range argument (fixed finding C19-3)
     f = getattr(reporting, func)
     try:
         r = float(f(a, b)); exn = None
@@ -375,7 +375,7 @@ def check_point(func, a, b, mp=None):
         return None
     if func == 'k2_to_dof':
         if not (1 <= b <= 99.9): return None
-        if a > 1e150 or a < 1e-150: return None      # k2**2 over/underflows (known finding C19-2)
+        # huge k2: k2*k2 = +inf must be reported as dof < 2 (fixed finding C19-2); tiny k2: 0 -> inf dof
         lo_sq = float(k2sq_exact(mp, 1.999, b)); inf_sq = float(k2sq_exact(mp, INF, b))
         if a * a > lo_sq * (1 + 1e-6):
             if exn != 'RuntimeError': rec.update(kind='dof<2 expected RuntimeError', got=exn or jf(r)); return rec
@@ -410,15 +410,7 @@ def check_monotone(df1, df2, p1, p2):
     return None
 
 def is_known(f):
-    if not isinstance(f, dict): return False
-    try:
-        a, b = [float(x) for x in f.get('args', [NAN, NAN])[:2]]
-    except (TypeError, ValueError):
-        return False
-    if f.get('func') == 'k2_factor_sq' and f.get('kind') == 'range' and not (0 < b < 100) and (a > 1):
-        return True      # C19-1: no range check on p
-    if f.get('func') == 'k2_to_dof' and a > 1e150 and f.get('got') == 'OverflowError':
-        return True      # C19-2
+    # C19-1, C19-2 and C19-3 are FIXED: a failing input of those shapes is a regression, not a known finding
     return False
 
 def search(rng, tier, broken):
@@ -481,7 +473,7 @@ def kf_k2_factor_sq_p_range():
 def kf_nan_passes_guards():
     from GTC import reporting
     got = []
-    for f, a in (('k_factor', (3, NAN)), ('k_to_dof', (NAN, 95)), ('k_to_dof', (2.0, NAN)), ('k2_to_dof', (NAN, 95)), ('k2_to_dof', (2.6, NAN))):
+    for f, a in (('k_factor', (3, NAN)), ('k2_factor_sq', (3, NAN)), ('k_to_dof', (NAN, 95)), ('k_to_dof', (2.0, NAN)), ('k2_to_dof', (NAN, 95)), ('k2_to_dof', (2.6, NAN))):
         try:
             got.append('%s%r -> %r' % (f, a, float(getattr(reporting, f)(*a))))
         except RuntimeError:
